@@ -267,7 +267,7 @@ func runCase(c Case, ctx *hx.Ctx) *hx.Failure {
 				}
 			}
 			dialErr := cl.dialFailsAfter > cl.dialFailsBefore
-			if errors.Is(cl.err, transport.ErrLazyConnCannotReserveQueryExchanger) || errors.Is(cl.err, transport.ErrNewConnCannotReserveQueryExchanger) {
+			if errors.Is(cl.err, transport.ErrLazyConnCannotReserveQueryExchanger) || errors.Is(cl.err, transport.ErrNewConnCannotReserveQueryExchanger) || errors.Is(cl.err, transport.ErrTDCClosed) {
 				// the failing attempt never reached the wire (the dialled connection was already closed or full when the
 				// queued query tried to use it); it cannot be attributed through the wire, so it is attributed to any
 				// connection dialled during this burst
